@@ -174,7 +174,13 @@ macro_rules! c20_json_string_harness {
     };
 }
 
-// @harness id=c20_json_string_3 props=C20,C01:thorough tier=quick cap=1500
+// @harness id=c20_json_string_2 props=C20,C01:thorough tier=quick cap=1500
+// @desc parse_json::Lexer::lex_string on a quote followed by every valid-UTF-8 string of 2 bytes: accepted iff RFC 8259 section 7 accepts, decoded characters and consumed length equal the reference decoder's
+// @bound 2 arbitrary bytes after the opening quote (single escapes, raw 1-2 byte characters, control characters, unterminated strings)
+// @funcs parse_json::Lexer::lex_string, parse_json::Lexer::eat_char, parse_json::Lexer::eat_any_char
+c20_json_string_harness!(c20_json_string_2, 2, 6);
+
+// @harness id=c20_json_string_3 props=C20,C01:thorough tier=thorough cap=3600
 // @desc parse_json::Lexer::lex_string on a quote followed by every valid-UTF-8 string of 3 bytes: accepted iff RFC 8259 section 7 accepts, decoded characters and consumed length equal the reference decoder's
 // @bound 3 arbitrary bytes after the opening quote (all single escapes, raw characters of 1-3 bytes, control characters, unterminated strings)
 // @funcs parse_json::Lexer::lex_string, parse_json::Lexer::eat_char, parse_json::Lexer::eat_any_char
@@ -266,7 +272,7 @@ fn stub_parse_f64(_s: &str) -> Result<f64, core::num::ParseFloatError> {
     Ok(x)
 }
 
-// @harness id=c20_json_number_5 props=C20,C06,C01:thorough tier=quick cap=1500
+// @harness id=c20_json_number_5 props=C20,C06:thorough,C01:thorough tier=quick cap=1500
 // @desc parse_json::Lexer::lex_number on every ASCII string of 5 bytes: the accepted prefix is exactly the longest RFC 8259 section 6 number token, malformed numbers (-, leading zeros incl. after a minus sign, missing fraction or exponent digits) are errors, and Ok(Some(x)) implies x is finite
 // @bound 5 arbitrary ASCII bytes; the decimal-to-double conversion (str::parse::<f64>) is stubbed by an arbitrary non-NaN double
 // @funcs parse_json::Lexer::lex_number, parse_json::Lexer::eat_digit_0_9, parse_json::Lexer::eat_digit_1_9
